@@ -32,7 +32,21 @@ def parseAct (j : J) : Except String Act := do
   else if k = "senderFinish" then pure .senderFinish
   else if k = "envEnq" then pure .envEnq
   else if k = "envDone" then pure (.envDone (← j.boolean "reset"))
+  else if k = "envDisc" then pure .envDisc
+  else if k = "coopDisc" then pure .coopDisc
+  else if k = "senderPurge" then pure .senderPurge
   else throw s!"unknown act {k}"
+
+def parseMOp (j : J) : Except String MOp := do
+  let k ← j.string "op"
+  if k = "send" then pure (.send (← j.nat "c") (← j.bytes "d") (← parseOutcome j))
+  else if k = "disc" then pure (.disc (← j.nat "c") (← j.boolean "close"))
+  else if k = "flush" then
+    let ws ← (← j.array "w").mapM fun w => do
+      let outs ← (← w.array "outs").mapM parseOutcome
+      pure ((← w.nat "c"), outs)
+    pure (.flush ws)
+  else throw s!"unknown multi-connection op {k}"
 
 def handle (j : J) : Except String J := do
   let part ← j.string "part"
@@ -44,10 +58,25 @@ def handle (j : J) : Except String J := do
                 ("close_events", J.ofNat s.closeEvents), ("offered", J.ofNat s.offered),
                 ("offered_after_fatal", J.ofNat s.offeredAfterClose),
                 ("shut_wr", J.arr (s.shutLog.map fun e => J.ofNats [e.1.length, e.2.length]))])
-  else
+  else if part = "M" then
+    -- several connections sharing the deferred sender: one view per connection (Model/SendPath.lean Part C)
+    let ops ← (← j.array "ops").mapM parseMOp
+    let n ← j.nat "n"
+    for op in ops do
+      let bad : Bool := match op with
+        | .send c _ _ => decide (c ≥ n)
+        | .disc c _ => decide (c ≥ n)
+        | .flush ws => ws.any fun w => decide (w.1 ≥ n)
+      if bad then throw "connection index out of range"
+    let vs := mrun (← j.nat "pb") n ops
+    pure (J.mk [("views", J.arr (vs.map fun v => J.mk
+      [("accepted", J.ofBytes v.st.accepted), ("pending", J.arr (v.st.pending.map J.ofBytes)), ("disc", J.bool v.st.disc),
+       ("sending", J.bool v.st.sending), ("offered_after_disc", J.ofNat v.st.offeredAfterDisc)]))])
+  else if part = "B" then
     let acts ← (← j.array "acts").mapM parseAct
     let s := crun { pb := (← j.nat "pb") } acts
     pure (J.mk [("accepted", J.ofBytes s.accepted), ("pending", J.arr (s.pending.map J.ofBytes)), ("disc", J.bool s.disc),
                 ("sending", J.bool s.sending), ("offered_after_disc", J.ofNat s.offeredAfterDisc)])
+  else throw s!"unknown part {part}"
 
 def main : IO Unit := serve handle
